@@ -433,7 +433,7 @@ func runC05(rc *RC) {
 	kinds := []string{"Send", "SendElement", "Encode", "EncodeElement", "SendIQElement", "SendMessageElement", "SendPresenceElement", "EncodeIQ", "SendIQ-get", "TokenWriter", "Encode", "Send"}
 	if ch.Chance("workload", 1, 3) {
 		// callers whose own payload reader fails half way, and callers that use one start element value for two calls
-		kinds = append(kinds, "Send-failing-reader", "SendElement-failing-reader", "SendElement-twice", "SendElement-nameless-start")
+		kinds = append(kinds, "Send-failing-reader", "SendElement-failing-reader", "SendElement-twice", "SendElement-nameless-start", "Encode-failing-marshaler")
 	}
 	var calls []*c05Call
 	var plans [][]*c05Call
@@ -487,6 +487,19 @@ func runC05(rc *RC) {
 				rc.Fire("reader-error")
 			} else {
 				c.expectFail = false // the reader was never asked for the token it fails on (it had delivered everything)
+			}
+		case "Encode-failing-marshaler":
+			// a value whose TokenReader fails part of the way through
+			c.spec = genSpec(rc, e.NS, c.marker, false, big)
+			c.expectFail = true
+			var toks []xml.Token
+			c.spec.tokens(&toks)
+			r := &failingReader{yieldReader: yieldReader{toks: toks}, after: ch.Int("workload", len(toks)+1)}
+			c.err = s.Encode(ctx, readerMarshaler{r})
+			if r.failed {
+				rc.Fire("reader-error")
+			} else {
+				c.expectFail = false
 			}
 		case "SendElement-nameless-start":
 			// a start element without a name cannot be written: the call fails, and that is all
